@@ -19,10 +19,10 @@ import lib
 META = dict(
     id='C18',
     level='proof',
-    technique='Coq proof (decode . encode = id for the emacs, csv and xml escaping functions against reader specifications; token/parenthesis structure of the emacs writer; refutation witnesses for the default csv quoting) + differential correspondence of the extracted writers against ledger + python csv/xml.etree/S-expression oracles',
-    level_text='Theorems in coq/Properties/Properties_C18.v state for ALL byte strings that the Emacs-Lisp reader recovers every string escape_string writes, that the whole emacs output lexes to the expected balanced token list and reads back as the tree (file line (hi lo 0) code payee (line account amount state [cost] [note])...); that XML character-data decoding inverts boost\'s entity encoding, the encoded text has no raw < and no & outside the six references, and a tag scanner finds in what the modelled property-tree writer prints exactly the elements of the tree, properly nested (for the transactions, accounts and commodities sections ledger builds, whatever the journal texts are); that an RFC 4180 reader recovers every row written with quoted_rfc; that the DEFAULT csv format (regenerated from report.h on every run) is recovered by the RFC reader when no field holds a double quote and by the backslash reader when no field holds a backslash, and is refuted for each reader, and for both at once, by computed witnesses (finding F10), while the proposed repair (also escape the backslash) is proved to give the full round trip. The model is tied to the code by comparing, byte for byte, ledger\'s csv (default and generated formats), emacs and xml (transactions, account tree, commodities) output with the extracted model on generated journals, and its reader specifications are cross-checked against python csv, expat and an S-expression reader on ledger\'s real output.',
+    technique='Coq proof (decode . encode = id for the emacs, csv and xml escaping functions against reader specifications; token/parenthesis structure of the emacs writer; element structure of the xml writer) + differential correspondence of the extracted writers against ledger + python csv/xml.etree/S-expression oracles',
+    level_text='Theorems in coq/Properties/Properties_C18.v state for ALL byte strings that the Emacs-Lisp reader recovers every string escape_string writes, that the whole emacs output lexes to the expected balanced token list and reads back as the tree (file line (hi lo 0) code payee (line account amount state [cost] [note])...); that XML character-data decoding inverts boost\'s entity encoding, the encoded text has no raw < and no & outside the six references, and a tag scanner finds in what the modelled property-tree writer prints exactly the elements of the tree, properly nested (for the transactions, accounts and commodities sections ledger builds, whatever the journal texts are); that an RFC 4180 reader recovers every row written with quoted_rfc; that the DEFAULT csv format (regenerated from report.h on every run) is recovered by the backslash-escape reader for ALL field contents (quoted() escapes both the double quote and the backslash), and by the RFC 4180 reader when no field holds a double quote or a backslash (the RFC reader is refuted by witnesses for each of the two characters - a statement about that reader; the property asks for one conventional reader). The model is tied to the code by comparing, byte for byte, ledger\'s csv (default and generated formats), emacs and xml (transactions, account tree, commodities) output with the extracted model on generated journals, and its reader specifications are cross-checked against python csv, expat and an S-expression reader on ledger\'s real output.',
     level_note='Trusted: Coq kernel; extraction + OCaml driver and this harness for the correspondence. boost::property_tree\'s XML writer and entity encoder are modelled (Model/Escape.v write_el, xml_encode) and validated by the correspondence, not verified. Amount texts (quantity, commodity, annotated amount) are taken from the register report, as the property text does. The running <total>, <account-amount>, <account-total> subtrees and the id/ref addresses of the xml output are not compared.',
-    design_ref='DESIGN.md section 7 C18, section 9 F10',
+    design_ref='DESIGN.md section 7 C18, section 9 F10 (repaired by /repo 3212d62)',
     assumptions=['free-text fields survive journal parsing unchanged (see EXCLUSIONS in harness/props/c18.py): no tab/newline inside a field, no double space, a payee does not start with `(` unless a code precedes it nor with `*`/`!` on an uncleared transaction, a code has no `)`, an account name is not wrapped in ()/[]/<>, has no empty `:` component and does not start with `;` `*` `!`, a note has no token starting or ending with `:` (metadata) and no `[` before a digit or `=` (date override)',
                  'quoted commodity symbols contain no double quote and no backslash (commodity scanner escapes)',
                  'control characters (outside the property\'s quantifier) are not generated: boost writes them raw, which is not well-formed XML 1.0'],
@@ -767,28 +767,31 @@ def oracle(rec, rows, res):
                   r['quantity(scrub(display_amount))'], r['cleared ? "*" : (pending ? "!" : "")'], r['join(note | xact.note)']] for r in rows]
     want_l1 = [[c.encode('utf-8', 'surrogateescape').decode('latin-1') for c in r] for r in want_rows]
     text = outs['csvd'][1].decode('latin-1')
-    failing = {}
-    for dialect, ch in (('rfc', '"'), ('bs', '\\')):
-        got = csv_rows(text, dialect)
-        if got == want_l1:
-            continue
-        failing[dialect] = True
-        # which rows does this reader lose?  (row by row, so that a clean row is judged alone)
-        lines = text.split('\n')[:-1]
-        if len(lines) != len(want_l1):
-            viol('csv-default:row-count', 'csv prints %d rows, the register %d' % (len(lines), len(want_l1)), len(lines), len(want_l1))
-            continue
+    lines = text.split('\n')[:-1]
+    if len(lines) != len(want_l1):
+        viol('csv-default:row-count', 'csv prints %d rows, the register %d' % (len(lines), len(want_l1)), len(lines), len(want_l1))
+    else:
+        # row by row: a conventional reader (the backslash-escape dialect the default format is
+        # written for, or RFC 4180) must recover the register's fields
         for ln, w in zip(lines, want_l1):
-            g = csv_rows(ln + '\n', dialect)
-            if g != [w] and not any(ch in c for c in w):
-                viol('csv-default:%s:clean-row-not-recovered' % dialect,
-                     'the %s reader does not recover a row none of whose fields contains %s' % (dialect, 'a double quote' if ch == '"' else 'a backslash'),
+            got_bs = csv_rows(ln + '\n', 'bs')
+            got_rfc = csv_rows(ln + '\n', 'rfc')
+            if got_bs != [w] and got_rfc != [w]:
+                viol('csv-default:no-dialect-recovers',
+                     'default csv output: neither the backslash-escape reader nor the RFC 4180 reader recovers the fields of this row',
                      ln, w)
                 break
-    if len(failing) == 2:
-        viol('csv-default:no-dialect-recovers:dquote+backslash',
-             'default csv output: fields with `"` are written as \\" (unreadable for an RFC 4180 reader) and `\\` is copied unescaped (a backslash reader drops it), so neither conventional reader recovers the rows of this report',
-             text[:600], want_rows)
+            if got_bs != [w] and not any('\\' in c for c in w):
+                viol('csv-default:bs:clean-row-not-recovered', 'the backslash reader does not recover a row none of whose fields contains a backslash', ln, w)
+                break
+            if got_rfc != [w] and not any('"' in c or '\\' in c for c in w):
+                viol('csv-default:rfc:clean-row-not-recovered', 'the RFC 4180 reader does not recover a row none of whose fields contains a double quote or a backslash', ln, w)
+                break
+        else:
+            # one dialect for the whole document
+            if csv_rows(text, 'bs') != want_l1 and csv_rows(text, 'rfc') != want_l1:
+                viol('csv-default:no-dialect-recovers', 'default csv output: no single conventional dialect recovers every row of this report',
+                     text[:600], want_rows)
     if rec['fkind'] == 'all-rfc':
         t2 = outs['csv'][1].decode('latin-1')
         got = csv_rows(t2, 'rfc')
@@ -860,7 +863,7 @@ def run(ctx, n_override=None):
                 'each journal is reported by reg, csv (default and a generated --csv-format), emacs and xml, with or without an account query; '
                 'non-trivial = at least one reported free-text field contains a character that some writer must escape (" \\ < > & \') or a non-ASCII letter; '
                 'distinct by journal text + query + csv format')
-    n = n_override or ctx.scale(2000, 15000)
+    n = n_override or ctx.scale(2000, 10000)
     jdir = ctx.path('journals')
     os.makedirs(jdir, exist_ok=True)
     batch = [make_journal(ctx, rng, i, jdir) for i in range(n)]
